@@ -111,10 +111,11 @@ class FunctionalContract(Contract):
             st.oblige("%s/call:%s/pre:%s" % (ex.cur_func[-1], self.qualname.split(".", 2)[-1], pid), f, kind="pre")
             st.assume(f if not isinstance(f, bool) else z3.BoolVal(f))
         kw = {"exact": exact} if self.family else {}
+        pre_heap = st.heap.copy()
         result = self.spec(S, recv, *args, **kw)
         if isinstance(result, tuple):
             result = TupleV(list(result))
-        st.log.append((self.qualname, recv, tuple(args)))
+        st.log.append((self.qualname, recv, tuple(args), pre_heap))
         for (sid, cond, goal) in S.side:
             st.oblige("%s/call:%s/%s" % (ex.cur_func[-1], self.qualname.split(".", 2)[-1], sid), Implies(cond, goal), kind="side")
         out = []
@@ -177,7 +178,7 @@ class RelationalContract(Contract):
         for (pid, f) in self.pre(S, recv, args):
             st.oblige("%s/call:%s/pre:%s" % (ex.cur_func[-1], self.qualname.split(".", 2)[-1], pid), f, kind="pre")
             st.assume(f if not isinstance(f, bool) else z3.BoolVal(f))
-        st.log.append((self.qualname, recv, tuple(args)))
+        st.log.append((self.qualname, recv, tuple(args), st.heap.copy()))
         return self.apply_fn(ex, st, recv, args, exact)
 
 
